@@ -9,7 +9,7 @@ EXPECT = {}
 FAULT = {}
 
 def gen_conforming(tier, rng):
-    n = 3000 if tier == "quick" else 150000
+    n = 6000 if tier == "quick" else 150000
     out = []
     for d in docs(rng, n):
         r = req_parse(d.render())
@@ -19,7 +19,7 @@ def gen_conforming(tier, rng):
 
 def gen_small_scope(tier, rng):
     """documents of <= 2 records x <= 2 entries, many of them (small-scope coverage of the grammar)"""
-    n = 2000 if tier == "quick" else 100000
+    n = 5000 if tier == "quick" else 100000
     out = []
     for d in docs(rng, n, max_records=2, max_entries=2):
         r = req_parse(d.render())
@@ -38,7 +38,7 @@ def oracle_conforming(req, out):
     return None
 
 def gen_faulted(tier, rng):
-    n = 3000 if tier == "quick" else 150000
+    n = 6000 if tier == "quick" else 150000
     out = []
     for d in docs(rng, n):
         k = rng.choice([1, 1, 1, 2])
